@@ -69,6 +69,7 @@ def gen(g, tier):
 
 
 class MechanicHarness(Harness):
+    gc_discipline = True  # see sim/batch.py run_case
     name = "mechanic"
     properties = ("C12",)
 
